@@ -19,6 +19,8 @@ func TestCheck(t *testing.T) {
 			"Non-trivial = the run saw refusals and more than burst admissions; distinct = hash of the case and its counts.")
 		r.Assume("the harness clock (time.Since, monotonic) and the bucket's clock (time.Now, monotonic reading) advance at the same rate")
 		r.Assume("slack 1e-6 tokens covers float64 rounding inside the bucket; qps values are integers < 2^24 so the float32 conversion in NewTokenBucketRateLimiter is exact")
+		boundaryScenarios(r)
+		siblingHammered(r)
 		reconfigScenarios(r)
 		singleFieldScenarios(r)
 		partialSyncScenarios(r)
@@ -29,6 +31,12 @@ func TestCheck(t *testing.T) {
 		r.Require(r.Counter("lower_bound_checks_after_observed_refusal_requiring>=1") >= 50, "too few non-trivial lower-bound checks")
 		r.Require(r.Counter("reconf_scenarios_requiring>=1") >= 20, "too few reconfiguration-after-refusal scenarios completed")
 		r.Require(r.Counter("single_field_scenarios") >= 16 && r.Counter("single_field_raise_requiring_more_than_old_burst") >= 4, "too few single-field reconfiguration scenarios")
+		r.Require(r.Counter("boundary_value_scenarios") >= 12 && r.Counter("boundary_value_scenarios_with_refusals") >= 4 && r.Counter("boundary_value_lower_bound_requiring>=1") >= 4, "too few boundary-value scenarios")
+		r.Require(r.Counter("sibling_hammered_scenarios") >= 10 && r.Counter("sibling_hammered_lower_bound_checks_after_refusal_requiring>=1") >= 15 && r.Counter("sibling_hammered_attempts_on_sibling") >= 2000, "too few sibling-hammered checks")
+		r.Require(r.Counter("recreate_cases") >= 4, "too few cluster delete/re-create cases")
+		r.Require(r.Counter("noop_limiter_mode_flips(local<->remote_without_client_sets)") >= 100, "too few limiter-mode flips")
+		r.Require(r.Quick() || (r.Counter("real_reconfigurations_delete_readd_same_values") >= 50 && r.Counter("real_reconfigurations_type_toggle_same_values") >= 50), "too few compound reconfigurations")
+		r.Require(r.Counter("e2e_refusals_429_on_post") >= 3 && r.Counter("e2e_refusals_429_on_watch") >= 3, "too few refusals on POST / watch requests end to end")
 		r.Require(r.Counter("partial_sync_cases") >= 12, "too few partial-sync cases in which the faulty part really failed the sync")
 		r.Require(r.Counter("e2e_refusals_429") >= 20 && r.Counter("e2e_forwarded") >= 10, "too few end-to-end events")
 		r.Require(r.Counter("e2e_refusals_429_on_events") >= 10, "too few refusals on the events resource end to end")
